@@ -816,7 +816,8 @@ def check_oracle(ctx, case, rows, where='catalog'):
 
 
 def run(ctx):
-    ctx.build(FILES)
+    ctx.build_with_translator(FILES, extra_files=['C07R_Model.v', 'C07R_Proofs.v', 'C07R_Properties.v'],
+                              extra_obligation_files=['C07R_Properties.v'])   # shape parameters over R
     ctx.cov['rule'] = (
         'random scenes up to 9x9 (every third up to 5x5): 1-5 labels (70% non-consecutive numbers) of kinds '
         'rect/single/diag/anti/ring(nested)/L/edge/scatter/line, overlapping draws give touching and nested '
